@@ -101,3 +101,11 @@ claim("C07",
       "numba = Python on these kernels (A-numba); loop-nest summarisation rule trusted; kernel enters loop-nest obligations as an abstract function; "
       "A&S approximates I0 (cited); ndim <= 3, <= 1 batch axis, 1 points axis.",
       "contract-based deductive verification (loop-nest summarisation of the real kernels to comprehensions, summation matching, z3)")
+
+claim("C08",
+      "The shape/stride arithmetic of the real conv._get_convolve_params is proved for D <= 3 with symbolic lengths, strides, channels and batch: "
+      "output length = ceil(L/s) with L = m+n-1 (full) or |m-n|+1 (valid), exact rejection conditions; the linops built on it forward identical parameters "
+      "to their adjoint functions (C01). The convolution sums themselves (inside scipy.signal) are covered by a bounded native check of the contract "
+      "(definition + both adjoints, small shapes) which is labelled bounded and not counted as proved.",
+      "scipy.signal.convolve/correlate not modelled deductively: the definition/adjoint clause is bounded-only (D<=2 (+one 3-D), lengths<=5, strides<=3).",
+      "contract-based deductive verification of the shape arithmetic (symbolic execution, z3) + bounded run-time contract check for the sums")
